@@ -37,7 +37,7 @@ func New(srcDir, moqPkg string) (*Registry, error) {
 	return &Registry{
 		srcPkgName:  srcPkg.Name,
 		srcPkgTypes: srcPkg.Types,
-		moqPkgPath:  findPkgPath(moqPkg, srcPkg.PkgPath),
+		moqPkgPath:  findPkgPath(moqPkg, srcPkg.Name, srcPkg.PkgPath),
 		aliases:     parseImportsAliases(srcPkg.Syntax),
 		imports:     make(map[string]*Package),
 	}, nil
@@ -176,8 +176,8 @@ func pkgInfoFromPath(srcDir string, mode packages.LoadMode) (*packages.Package, 
 	return pkgs[0], nil
 }
 
-func findPkgPath(pkgInputVal string, srcPkgPath string) string {
-	if pkgInputVal == "" {
+func findPkgPath(pkgInputVal string, srcPkgName string, srcPkgPath string) string {
+	if pkgInputVal == "" || pkgInputVal == srcPkgName {
 		return srcPkgPath
 	}
 	if pkgInDir(srcPkgPath, pkgInputVal) {
